@@ -27,7 +27,8 @@ LONG_FIT = 'segno ' * 100           # byte mode, a large symbol
 DOMAIN = dict(
     content=['', 'a', b'', 0, LONG_OVERFLOW, '123', 'HELLO WORLD', 'ä', '点', b'\x82\xa0', b'\xff', 12345, LONG_FIT, '漢字', b'a',
              b'\xeb\xc0', b'\xfc\xfc', '12\n'],
-    version=[None, 0, 41, 'M5', 'm1', '1', 1.0, True, 1, 40, 'M4', 'M1', 'm3', -1, 'abc', '', '40', '07', 2, 'M2', '10', 'M0'],
+    version=[None, 0, 41, 'M5', 'm1', '1', 1.0, True, 1, 40, 'M4', 'M1', 'm3', -1, 'abc', '', '40', '07', 2, 'M2', '10', 'M0',
+             '0', '-1', '-2', '-3', '-0', ' 0', '00', '+1', '1_0', ' 7 ', -3, '41', '-4'],
     error=[None, 'x', 'l', 'H', 'L', 'm', 'q', 'h', '', 'LL', 'M'],
     mode=[None, 'Numeric', 'foo', 1, 'byte', 'kanji', 'hanzi', 'ALPHANUMERIC', 'BYTE', '', 'Kanji', 'numeric', 'HANZI', 'alphanumeric'],
     mask=[None, -1, 4, 8, '3', 'a', 0, 3, 7, '7', '', '-1', 5, '8'],
@@ -382,7 +383,7 @@ def run_spellings(tier, rnd, st, res):
 BAD_COLOURS = ['#12', '#12345g', '', 'nocolor', (1, 2), (256, 0, 0), (0, 0, 0, 2.0), '#', '#1', '#12345', '#1234567', '#123456789',
                'notacolour', (1, 2, 3, 4, 5), (-1, 0, 0), (0, 0, 256), (0, 0, 0, -1), (0, 0, 0, 256), (0, 0, 0, 1.5), (0, 0, 0, -0.5),
                (), '#ggg', 'rgb(1,2,3)', ' red', '#12 34 56', '#1 2', '#12  34', '# 123', '#12 3', '12 34 56', '#1234 5678']
-GOOD_COLOURS = ['#123', '#a1b2c3', 'Red', 'darkblue', (1, 2, 3), (0, 0, 0, 255), (9, 8, 7, 0.5), '#00000080', '#1238']
+GOOD_COLOURS = [None, '#123', '#a1b2c3', 'Red', 'darkblue', (1, 2, 3), (0, 0, 0, 255), (9, 8, 7, 0.5), '#00000080', '#1238']
 COLOUR_KEYS = {'svg': COLOURS, 'png': COLOURS, 'ppm': COLOURS, 'eps': ['dark', 'light'], 'pdf': ['dark', 'light'], 'pam': ['dark', 'light'],
                'xpm': ['dark', 'light'], 'svgz': ['dark', 'light', 'quiet_zone']}
 KINDS = p_routes.KINDS
@@ -430,7 +431,7 @@ def run_serializers(tier, rnd, st, res):
         qr = qrs[2]
         for key in COLOUR_KEYS.get(kind, []):
             bad = BAD_COLOURS if tier != 'quick' and True else BAD_COLOURS[:7] + rnd.sample(BAD_COLOURS[7:], 6)
-            for val in bad + (GOOD_COLOURS if key in ('dark', 'light') or tier != 'quick' else rnd.sample(GOOD_COLOURS, 2)):
+            for val in bad + (GOOD_COLOURS if key in ('dark', 'light') or tier != 'quick' else [None] + rnd.sample(GOOD_COLOURS[1:], 2)):
                 attempt(qr, kind, key, val)
         # call histories: a valid colour first, then a malformed one that compares equal as a Python value
         # ((0, 0, 0, 2) is alpha 2/255, (0, 0, 0, 2.0) is out of range; True == 1; 1 == 1.0)
@@ -585,7 +586,7 @@ def run_cli(tier, rnd, st, res):
         shutil.rmtree(tmp, ignore_errors=True)
 
 
-def run_cli_honoured(tier, rnd, st, res):
+def run_cli_honoured(tier, rnd, st, res, field='c14'):
     """the command line tool honours its symbol arguments: the symbol written for --pattern / --version / --error (falsy values such
     as pattern 0 included) is read back from a txt output and judged (mask, version and level as requested)"""
     import tempfile
@@ -621,10 +622,10 @@ def run_cli_honoured(tier, rnd, st, res):
             meta.append('segno.cli.main(' + repr(argv[:-3] + ['<file>.txt', content]) + ')')
     for call, o in zip(meta, run_lines_parallel(JUDGE, lines, jobs=2)):
         kv = parse_kv(o)
-        bad = [f'{k}={kv.get(k)}' for k in ('c06', 'c04', 'c05') if kv.get(k, '-') not in ('ok', '-')]
+        bad = [f'{k}={kv.get(k)}' for k in (('c06', 'c04', 'c05') if field == 'c14' else (field,)) if kv.get(k, '-') not in ('ok', '-')]
         res.nontrivial.add(('cli-honoured', call))
         if bad:
-            res.violations.append(dict(property_field='c14', verdict='cli-argument-not-honoured:' + ','.join(bad), call=call,
+            res.violations.append(dict(property_field=field, verdict='cli-argument-not-honoured:' + ','.join(bad), call=call,
                                        judge={k: kv[k] for k in kv if k not in ('cw', 'bytes')}, known_id=None))
 
 
